@@ -622,12 +622,8 @@ Definition eng_stream (inp impl : node) : verdict :=
   (* a well-formed CAR given by the lengths of its sections (header first), cut after k bytes: by
      CarCutProofs.read_car_cut the prefix is readable exactly when the cut falls between two sections *)
   | List [Str kind; List lens; Int k; Int _] =>
-      let fix at_boundary (ls : list node) (acc : Z) : bool :=
-        match ls with
-        | Int l :: r => let acc' := (acc + l)%Z in (acc' =? k)%Z || at_boundary r acc'
-        | _ => false
-        end in
-      let m := if at_boundary lens 0%Z then Str (lit "accepted") else Str (lit "refused") in
+      (* Container.at_boundary over the announced lengths (CarCutProofs.accepted_prefix_ends_at_a_section) *)
+      let m := if at_boundary (map (fun n => Z.to_N (nint n)) lens) 0 (Z.to_N k) then Str (lit "accepted") else Str (lit "refused") in
       {| model_obs := m; violated := c18 (node_eqb impl m) |}
   | _ => bad
   end.
